@@ -396,3 +396,56 @@ _run_m14 = run
 def run(ctx, rep, tier):
     _run_m14(ctx, rep, tier)
     _folding_divides_like_c(ctx, rep, tier)
+
+
+# ---------------------------------------------------------------------------------------------------------------- C14.n
+def _expression_tree_mirrors_parse_tree(ctx, rep, tier):
+    """C14.n: the front end turns each operator node of the parse tree into one expression node over exactly its converted operands.
+
+    C evaluates every parenthesised sub-expression on its own, in the type its operands give it (`total + (cur - prev)`: the difference of two uint32_t wraps
+    modulo 2^32 before it is widened). An arm of the math parser that looks inside an already converted operand - splicing the children of a nested sum into
+    the enclosing one, re-associating, hoisting - produces an algebraically equal expression whose C value differs. Necessary condition, decided per arm:
+    the only node whose `.children` an arm of `_parse_math_expr` reads is the parse tree node it was given; operand lists grow by one converted operand at a
+    time (no extend / insert / concatenation of another node's operands)."""
+    model = ctx.model
+    rep.rule("C14.n", "each operator arm of the math parser builds its node from exactly the converted operands of its parse-tree node: it never reads the "
+                      "operands of an already converted sub-expression (no flattening / re-association: C evaluates a parenthesised operand in its own type)")
+    q = "ParseCtx._parse_math_expr"
+    pm = model.func(q)
+    d = dispatch_on(pm.body, "expr.data", ctx.module_str_lists())
+    param = pm.args.args[1].arg if len(pm.args.args) > 1 else "expr"
+    n = 0
+    for label in ("sum_expr", "mul_expr", "bit_or_expr", "bit_xor_expr", "bit_and_expr", "conjunction_expr", "disjunction_expr", "comp_expr", "shift_expr", "not_expr", "negate_expr"):
+        arm = d.arm_for(label)
+        if arm is None:
+            raise AnalysisError(f"C14.n: _parse_math_expr has no arm for {label}")
+        n += 1
+        probs = []
+        recursive = 0
+        for st in arm:
+            for node in ast.walk(st):
+                if isinstance(node, ast.Attribute) and node.attr in ("children", "negate", "operators", "ops", "operands", "left", "right", "lhs", "rhs"):
+                    base = node.value
+                    # reading expr.children[..] (the parse node, or a child of it) is the normal case
+                    root = base
+                    while isinstance(root, (ast.Subscript, ast.Attribute)):
+                        root = root.value
+                    if not (isinstance(root, ast.Name) and root.id == param):
+                        probs.append(f"reads `{ast.unparse(node)}`: the operands of an already converted sub-expression")
+                if isinstance(node, ast.Call) and isinstance(node.func, ast.Attribute) and node.func.attr in ("extend", "insert"):
+                    probs.append(f"`{ast.unparse(node)[:80]}`: an operand list grows by more (or elsewhere) than one converted operand per parse-tree operand")
+                if isinstance(node, ast.Call) and isinstance(node.func, ast.Attribute) and node.func.attr in ("_parse_integer_expr", "_parse_math_expr"):
+                    recursive += 1
+        if recursive == 0:
+            probs.append("no operand is converted by the recursive parser")
+        rep.check(not probs, "C14.n", q, f"arm {label}", "; ".join(sorted(set(probs))) + " - an algebraically equal regrouping is not the same C expression: "
+                  "`total + (cur - prev)` with 32-bit unsigned cur / prev and a 64-bit total must wrap the difference before widening")
+    rep.floor("C14.n", 11)
+
+
+_run_n14 = run
+
+
+def run(ctx, rep, tier):
+    _run_n14(ctx, rep, tier)
+    _expression_tree_mirrors_parse_tree(ctx, rep, tier)
